@@ -397,9 +397,34 @@ class Result:
     pass
 
 
-async def run_session(cfg, edit=None, recorder=None, max_turns=6000, quiet_turns=80):
+class RevTunnel(memwire.MemTunnel):
+    """reverse direction: the listener's factory makes the SSH CLIENT connection (listen_reverse), the
+    connector's factory the SSH SERVER connection (connect_reverse); wire sides stay 'c' = SSH client"""
+
+    async def create_connection(self, session_factory, host, port, **kw):
+        wire = memwire.Wire(self.loop)
+        self.wires.append(wire)
+        if self.on_wire:
+            self.on_wire(wire)
+        cconn = self.server_factory('10.0.0.1', 40000)
+        sconn = session_factory()
+        ct = wire.attach('c', cconn)
+        st = wire.attach('s', sconn)
+        wire.sconn, wire.cconn = sconn, cconn
+        cconn.connection_made(ct)
+        sconn.connection_made(st)
+        return st, sconn
+
+
+ENTRIES = ('connect', 'create_connection', 'host_key', 'auth_methods', 'reverse')
+
+
+async def run_session(cfg, edit=None, recorder=None, max_turns=6000, quiet_turns=80, entry='connect'):
     """cfg: dict(c=dict(kex, enc, mac, cmp, hostkey), s=dict(kex, enc, mac, cmp), keys=[SSHKey...],
-    trusted=[SSHKey public...], c_version, s_version).  Returns a Result."""
+    trusted=[SSHKey public...], c_version, s_version).  `entry` is the public entry point through which the
+    client side is started: connect(), create_connection(), get_server_host_key(), get_server_auth_methods(),
+    or listen_reverse() with connect_reverse() as the server.  Returns a Result; Result.c_done says that the
+    entry point delivered a result to its caller (Result.value)."""
     import asyncssh
     loop = asyncio.get_running_loop()
     inline = True
@@ -410,8 +435,8 @@ async def run_session(cfg, edit=None, recorder=None, max_turns=6000, quiet_turns
     res = Result()
     m = Mitm(edit)
     res.mitm = m
-    tun = memwire.MemTunnel(loop)
-    state = {'s_auth': False, 's_lost': None, 'newkeys': {}}
+    tun = (RevTunnel if entry == 'reverse' else memwire.MemTunnel)(loop)
+    state = {'s_auth': False, 's_lost': None, 'newkeys': {}, 'accepted': None, 'c_err': None}
 
     def on_wire(wire):
         wire.filter = m
@@ -419,7 +444,10 @@ async def run_session(cfg, edit=None, recorder=None, max_turns=6000, quiet_turns
 
     class Srv(asyncssh.SSHServer):
         def begin_auth(self, username):
-            return False
+            return entry == 'auth_methods'
+
+        def password_auth_supported(self):
+            return True
 
         def auth_completed(self):
             state['s_auth'] = True
@@ -437,8 +465,28 @@ async def run_session(cfg, edit=None, recorder=None, max_turns=6000, quiet_turns
                server_host_key_algs=c['hostkey'])
     if cfg.get('c_version'):
         ckw['client_version'] = cfg['c_version']
-    acc = await asyncssh.listen('mem', 22, tunnel=tun, server_factory=Srv, **skw)
-    task = asyncio.ensure_future(asyncssh.connect('mem', 22, tunnel=tun, **ckw))
+    if entry == 'reverse':
+        def accepted(cn):
+            state['accepted'] = cn
+
+        def failed(cn, exc):
+            state['c_err'] = exc
+        acc = await asyncssh.listen_reverse('mem', 22, tunnel=tun, acceptor=accepted, error_handler=failed, **ckw)
+        task = asyncio.ensure_future(asyncssh.connect_reverse('mem', 22, tunnel=tun, server_factory=Srv, config=None, **skw))
+    else:
+        acc = await asyncssh.listen('mem', 22, tunnel=tun, server_factory=Srv, **skw)
+        if entry == 'connect':
+            coro = asyncssh.connect('mem', 22, tunnel=tun, **ckw)
+        elif entry == 'create_connection':
+            coro = asyncssh.create_connection(asyncssh.SSHClient, 'mem', 22, tunnel=tun, **ckw)
+        else:
+            kw = dict(tunnel=tun, config=None, kex_algs=c['kex'], server_host_key_algs=c['hostkey'])
+            if cfg.get('c_version'):
+                kw['client_version'] = cfg['c_version']
+            coro = (asyncssh.get_server_host_key('mem', 22, **kw) if entry == 'host_key' else
+                    asyncssh.get_server_auth_methods('mem', 22, username='u', **kw))
+        task = asyncio.ensure_future(coro)
+    res.entry = entry
     last, quiet, turns = None, 0, 0
     while turns < max_turns and not task.done():
         await asyncio.sleep(0 if inline else 0.002)
@@ -452,27 +500,49 @@ async def run_session(cfg, edit=None, recorder=None, max_turns=6000, quiet_turns
             last, quiet = cur, 0
     res.turns = turns
     res.stalled = not task.done()
+    if entry == 'reverse' and task.done():
+        await memwire.settle(10)
     res.c_done = False
     res.c_exc = None
+    res.value = None
     conn = None
+    value = exc = None
     if task.done():
         if task.cancelled():
             res.c_exc = 'Cancelled'
         elif task.exception() is not None:
-            e = task.exception()
-            res.c_exc = type(e).__name__
-            res.c_code = getattr(e, 'code', None)
-            res.c_reason = str(getattr(e, 'reason', e))[:200]
+            exc = task.exception()
         else:
-            conn = task.result()
-            res.c_done = True
+            value = task.result()
     else:
         task.cancel()
     wire = tun.wires[-1] if tun.wires else None
     res.wire = wire
-    cconn = conn if conn is not None else (wire.cconn if wire else None)
     sconn = wire.sconn if wire else None
     res.s_done = state['s_auth']
+    if entry == 'reverse':
+        # the task is the SERVER side (connect_reverse); the client's result is the acceptor callback
+        if value is not None:
+            res.s_done = True
+        if state['accepted'] is not None:
+            conn = state['accepted']
+            res.c_done = True
+        exc = state['c_err'] or exc
+    elif value is not None or (task.done() and not task.cancelled() and task.exception() is None):
+        res.c_done = True
+        if entry == 'connect':
+            conn = value
+        elif entry == 'create_connection':
+            conn = value[0]
+        elif entry == 'host_key':
+            res.value = value.public_data if value is not None else None
+        else:
+            res.value = list(value) if value is not None else None
+    if exc is not None and not res.c_done:
+        res.c_exc = type(exc).__name__
+        res.c_code = getattr(exc, 'code', None)
+        res.c_reason = str(getattr(exc, 'reason', exc))[:200]
+    cconn = conn if conn is not None else (wire.cconn if wire else None)
 
     def info(cn):
         if cn is None:
@@ -488,7 +558,7 @@ async def run_session(cfg, edit=None, recorder=None, max_turns=6000, quiet_turns
     res.c_sid = getattr(cconn, '_session_id', None) if cconn is not None else None
     res.s_sid = getattr(sconn, '_session_id', None) if sconn is not None else None
     res.c_hostkey = None
-    if res.c_done:
+    if res.c_done and conn is not None:
         try:
             k = conn.get_server_host_key()
             res.c_hostkey = k.public_data if k is not None else None
@@ -501,6 +571,8 @@ async def run_session(cfg, edit=None, recorder=None, max_turns=6000, quiet_turns
         recorder.records.clear()
     if conn is not None:
         conn.abort()
+    if entry == 'reverse' and value is not None:
+        value.abort()
     if wire is not None:
         wire.cut_link()
     acc.close()
